@@ -22,7 +22,7 @@ PANIC_CALLEES = [
     "Vec::remove", "Vec::insert", "Vec::swap_remove", "Vec::drain", "Vec::split_off", "Vec::extend_from_within", "String::remove", "String::insert", "String::insert_str",
     "String::truncate", "String::drain", "String::replace_range", "String::split_off", "VecDeque::remove", "VecDeque::swap", "VecDeque::insert",
     "RefCell::borrow", "RefCell::borrow_mut", "Duration::from_secs_f64", "Duration::from_secs_f32", "Duration::mul_f64", "Duration::div_f64",
-    "Iterator::step_by", "char::from_digit", "LocalKey::with", "i64::abs", "i64::pow", "u64::pow", "usize::pow", "u64::next_power_of_two", "usize::next_power_of_two",
+    "Iterator::step_by", "Iterator::sum", "Iterator::product", "char::from_digit", "LocalKey::with", "i64::abs", "i64::pow", "u64::pow", "usize::pow", "u64::next_power_of_two", "usize::next_power_of_two",
     "u64::div_euclid", "i64::div_euclid", "i64::rem_euclid", "u64::rem_euclid", "Any::downcast", "JoinHandle::join", "str::repeat", "slice::repeat", "slice::concat",
     re.compile(r"<std::time::(Duration|Instant|SystemTime) as std::ops::(Add|Sub|Mul|Div|AddAssign|SubAssign)"),
     re.compile(r"<.* as std::ops::(Div|Rem|DivAssign|RemAssign)<.*>>::(div|rem|div_assign|rem_assign)$"),
@@ -113,6 +113,8 @@ def panic_sites(b):
         counts[(kind, name)] = o + 1
         res.append({"kind": kind, "name": name, "ord": o, "span": span, "detail": detail, "bb": bb})
     for c in b.calls():
+        if c.matches(["Iterator::sum", "Iterator::product"]) and re.search(r"::<f(32|64)>$", c.callee_args):
+            continue   # floating-point sums do not overflow-panic
         if c.matches(PANIC_CALLEES):
             add("call", strip_generics(c.callee_args if c.matches(["Index::index", "IndexMut::index_mut"]) else c.callee), c.span, c, c.bb)
     for bi in sorted(b.reachable_blocks()):
@@ -261,6 +263,13 @@ def run(ctx):
     ctx.run_rule("R1", lambda c: analyse(c, f, "R1"))
     from . import controls
     ctx.run_rule("R1", lambda c: controls.control_panics(c, "R1"))
+    # "returns Err for invalid arguments": the rejecting edges themselves (each is a rule of the property that owns the validator)
+    from . import C05, C06, C08, C09, C13
+    ctx.rule("R2", "invalid input is rejected with Err (shared rules): label cardinality / missing names in the vector lookups (C05.R4); metric and label names, empty help, duplicate and "
+                   "reserved labels (C09.R1-R5); bucket lists and bucket helpers (C08.R1, R2, R6); duplicate / inconsistent registration and unknown collectors (C06.R2); "
+                   "families without name or samples in both encoders (C13.R1, C04 via check_metric_family)")
+    ctx.run_rule("R2", lambda c: C06._as(c, "R2", lambda s_: (C05.rule_R4(s_, f), C09.rule_R1(s_, f), C09.rule_R2(s_, f), C09.rule_R3(s_, f), C09.rule_R4(s_, f), C09.rule_R5(s_, f),
+                                                              C08.rule_R1_R2(s_, f), C08.rule_R6(s_, f), C06.rule_R2(s_, f), C13.rule_R1(s_, f))))
     if ctx.tier == "thorough":
         for cfgname in ("plain", "nightlyproc", "push"):
             g = ctx.facts(cfgname)
